@@ -11,7 +11,7 @@ const SPEC: Spec = Spec {
         "refint (schoolbook add/sub on u64 limbs) is trusted; it is cross-checked against Python int on a transcript slice",
         "x86_64 only: the 32-bit digit build and the non-x86 adc/sbb fallbacks are not exercised",
     ],
-    bounds_quick: "S1 Dense(S5,4)^2; S2 Runs(S5,2,12)^2; S3 block-boundary lengths {4,5,6,9,10,11,14,15,16,20,21}x{+0,+1,+5,+6} with Runs(S5,2,.); S4 dense LCG digit strings, all length pairs <= 24 x 3x3 family members; S5 scalar forms: Dense(S5,4)+Runs(S5,2,8) x 390 scalars (every 2^k-1, 2^k, 2^k+1 for k < 128 and the type extremes; u32/u64/u128, +-i64/i128); S8 Dense(S16,2)^2 (16-letter half-digit alphabet); S7 long operands of 64..1100 digits (4 shapes each, all pairs); S6 (Dense(S5,3) + lengths 4..12 x 3 shapes)^2 through the in-place / owning forms on operands with spare buffer capacity",
+    bounds_quick: "S1 Dense(S5,4)^2; S2 Runs(S5,2,12)^2; S3 block-boundary lengths {4,5,6,9,10,11,14,15,16,20,21}x{+0,+1,+5,+6} with Runs(S5,2,.); S4 dense LCG digit strings, all length pairs <= 24 x 3x3 family members; S5 scalar forms: Dense(S5,4)+Runs(S5,2,8) x 390 scalars (every 2^k-1, 2^k, 2^k+1 for k < 128 and the type extremes; u32/u64/u128, +-i64/i128); S9 scalar matrix: 18 magnitudes x both signs x 32 edge scalars x 12 primitive types x every add/sub form; S8 Dense(S16,2)^2 (16-letter half-digit alphabet); S7 long operands of 64..1100 digits (4 shapes each, all pairs); S6 (Dense(S5,3) + lengths 4..12 x 3 shapes)^2 through the in-place / owning forms on operands with spare buffer capacity",
     bounds_thorough: "S1 Dense(S5,4)^2; S2 Runs(S5,3,17)^2 (panicking forms on the Runs(S5,3,10) sub-square); S3 as quick with Runs(S5,3,.) for the shorter operand; S4 length pairs <= 48 x 7x7 family members; S5; S6 with lengths up to 24; S7 up to 4099 digits",
     hang_secs: 120,
     probes: Some(probes),
@@ -255,6 +255,138 @@ fn body(ctx: &mut Ctx) {
                 }
                 ctx.sample(|| format!("dense LCG digits: len(a)={} len(b)={} x 3x3 family members, both orders", la, lb));
             }
+        }
+    }
+    // S9: the full scalar matrix: every primitive type x its extreme values x both operand orders x + - += -= on BigInt of
+    // both signs (results that change sign or length included) and, for the unsigned types, on BigUint
+    if ctx.space("S9") {
+        let mags: Vec<Vec<u64>> = vec![vec![], vec![1], vec![2], vec![0x7fff_ffff], vec![0xffff_ffff], vec![alpha::H - 1], vec![alpha::H], vec![alpha::H + 1], vec![alpha::M - 1], vec![alpha::M], vec![0, 1], vec![1, 1], vec![alpha::M, alpha::H - 1], vec![0, alpha::H], vec![alpha::M, alpha::M], vec![0, 0, 1], vec![1, 0, 1], alpha::lcg_digits(5, 9)];
+        let edge: Vec<i128> = vec![0, 1, 2, -1, -2, 127, 128, -128, -129, 255, 256, 32767, 32768, -32768, 65535, 65536, (1 << 31) - 1, 1 << 31, -(1 << 31), (1 << 32) - 1, 1 << 32, (1 << 63) - 1, 1 << 63, -(1 << 63), -(1 << 63) - 1, (1 << 64) - 1, 1 << 64, (1 << 64) + 1, -(1 << 64), i128::MAX, i128::MIN, i128::MIN + 1];
+        macro_rules! scalar_int {
+            ($T:ty, $tn:expr, $x:expr, $xi:expr, $t:expr) => {{
+                if let Ok(t) = <$T>::try_from($t) {
+                    let ti = Int::from_i128($t);
+                    let (sum, dif, rdif) = ($xi.add(&ti), $xi.sub(&ti), ti.sub($xi));
+                    let args = || vec![format!("x={}", $xi.to_hex()), format!("s={} ({})", $t, $tn)];
+                    let r = call(ctx, || $x + t);
+                    expect_int(ctx, concat!("BigInt &x+", $tn), &args, r, &sum);
+                    let r = call(ctx, || t + $x);
+                    expect_int(ctx, concat!("BigInt ", $tn, "+&x"), &args, r, &sum);
+                    let r = call(ctx, || $x.clone() + t);
+                    expect_int(ctx, concat!("BigInt x+", $tn), &args, r, &sum);
+                    let r = call(ctx, || t + $x.clone());
+                    expect_int(ctx, concat!("BigInt ", $tn, "+x"), &args, r, &sum);
+                    let r = call(ctx, || $x - t);
+                    expect_int(ctx, concat!("BigInt &x-", $tn), &args, r, &dif);
+                    let r = call(ctx, || $x.clone() - t);
+                    expect_int(ctx, concat!("BigInt x-", $tn), &args, r, &dif);
+                    let r = call(ctx, || t - $x);
+                    expect_int(ctx, concat!("BigInt ", $tn, "-&x"), &args, r, &rdif);
+                    let r = call(ctx, || t - $x.clone());
+                    expect_int(ctx, concat!("BigInt ", $tn, "-x"), &args, r, &rdif);
+                    let r = call(ctx, || {
+                        let mut y = $x.clone();
+                        y += t;
+                        y
+                    });
+                    expect_int(ctx, concat!("BigInt x+=", $tn), &args, r, &sum);
+                    let r = call(ctx, || {
+                        let mut y = $x.clone();
+                        y -= t;
+                        y
+                    });
+                    expect_int(ctx, concat!("BigInt x-=", $tn), &args, r, &dif);
+                }
+            }};
+        }
+        macro_rules! scalar_uint {
+            ($T:ty, $tn:expr, $u:expr, $un:expr, $t:expr) => {{
+                if let Ok(t) = <$T>::try_from($t) {
+                    let tn = Nat::from_u128($t as u128);
+                    let sum = $un.add(&tn);
+                    let args = || vec![format!("a={}", $un.to_hex()), format!("s={} ({})", $t, $tn)];
+                    let r = call(ctx, || $u + t);
+                    expect_nat(ctx, concat!("BigUint &a+", $tn), &args, r, &sum);
+                    let r = call(ctx, || t + $u.clone());
+                    expect_nat(ctx, concat!("BigUint ", $tn, "+a"), &args, r, &sum);
+                    let r = call(ctx, || {
+                        let mut y = $u.clone();
+                        y += t;
+                        y
+                    });
+                    expect_nat(ctx, concat!("BigUint a+=", $tn), &args, r, &sum);
+                    match $un.sub(&tn) {
+                        Some(d) => {
+                            let r = call(ctx, || $u - t);
+                            expect_nat(ctx, concat!("BigUint &a-", $tn), &args, r, &d);
+                            let r = call(ctx, || {
+                                let mut y = $u.clone();
+                                y -= t;
+                                y
+                            });
+                            expect_nat(ctx, concat!("BigUint a-=", $tn), &args, r, &d);
+                        }
+                        None => {
+                            let r = call(ctx, || $u - t);
+                            expect_panic(ctx, concat!("BigUint &a-", $tn, " (a<s)"), &args, r);
+                            let r = call(ctx, || {
+                                let mut y = $u.clone();
+                                y -= t;
+                                y
+                            });
+                            expect_panic(ctx, concat!("BigUint a-=", $tn, " (a<s)"), &args, r);
+                        }
+                    }
+                    match tn.sub($un) {
+                        Some(d) => {
+                            let r = call(ctx, || t - $u);
+                            expect_nat(ctx, concat!("BigUint ", $tn, "-&a"), &args, r, &d);
+                            let r = call(ctx, || t - $u.clone());
+                            expect_nat(ctx, concat!("BigUint ", $tn, "-a"), &args, r, &d);
+                        }
+                        None => {
+                            let r = call(ctx, || t - $u);
+                            expect_panic(ctx, concat!("BigUint ", $tn, "-&a (s<a)"), &args, r);
+                        }
+                    }
+                }
+            }};
+        }
+        for (i, d) in mags.iter().enumerate() {
+            if !ctx.mine(i as u64) {
+                continue;
+            }
+            let un = Nat::from_digits(d);
+            let u = bu(d);
+            for neg in [false, true] {
+                let xi = Int::new(neg, un.clone());
+                let x = bi_int(&xi);
+                for &t in &edge {
+                    ctx.case();
+                    ctx.nontrivial(1);
+                    scalar_int!(i8, "i8", &x, &xi, t);
+                    scalar_int!(i16, "i16", &x, &xi, t);
+                    scalar_int!(i32, "i32", &x, &xi, t);
+                    scalar_int!(i64, "i64", &x, &xi, t);
+                    scalar_int!(i128, "i128", &x, &xi, t);
+                    scalar_int!(isize, "isize", &x, &xi, t);
+                    scalar_int!(u8, "u8", &x, &xi, t);
+                    scalar_int!(u16, "u16", &x, &xi, t);
+                    scalar_int!(u32, "u32", &x, &xi, t);
+                    scalar_int!(u64, "u64", &x, &xi, t);
+                    scalar_int!(u128, "u128", &x, &xi, t);
+                    scalar_int!(usize, "usize", &x, &xi, t);
+                    if !neg && t >= 0 {
+                        scalar_uint!(u8, "u8", &u, &un, t);
+                        scalar_uint!(u16, "u16", &u, &un, t);
+                        scalar_uint!(u32, "u32", &u, &un, t);
+                        scalar_uint!(u64, "u64", &u, &un, t);
+                        scalar_uint!(u128, "u128", &u, &un, t);
+                        scalar_uint!(usize, "usize", &u, &un, t);
+                    }
+                }
+            }
+            ctx.sample(|| format!("|x|={} (both signs) x {} edge scalars x 12 primitive types x 10 add/sub forms (BigInt) + 7 (BigUint)", un.to_hex(), edge.len()));
         }
     }
     // S8: half-digit value structure: Dense(S16,2)^2 (digits around 2^31, 2^32, 2^33, 2^63, all-ones / all-zero halves)
